@@ -36,9 +36,10 @@ def main():
         # verify inside the seed's own scratch worktree (demos may assert their location)
         work = os.path.dirname(seed_dir)
         run(["git", "checkout", "--", "."], work)
-        if run(["git", "rev-parse", "HEAD"], work).stdout != run(["git", "-C", "/repo", "rev-parse", "HEAD"], "/").stdout:
-            print(sid, "worktree is not at /repo HEAD; re-create it")
-            continue
+        head = run(["git", "-C", "/repo", "rev-parse", "HEAD"], "/").stdout.strip()
+        if run(["git", "rev-parse", "HEAD"], work).stdout.strip() != head:
+            # /repo moved on (a new fix: commit) since the scratch worktree was made: bring it up to date
+            run(["git", "checkout", "-q", "--detach", head], work)
         try:
             shutil.copy(demo, os.path.join(work, "demo_seed.py"))
             env = dict(os.environ, PYTHONPATH=work, PYTHONHASHSEED=os.environ.get("PYTHONHASHSEED", "0"))
